@@ -7,7 +7,7 @@ def main():
     c = Check("C05", a.tier, a.seed)
     if a.replay:
         r = json.load(open(a.replay)); c.seed, c.tier = r["seed"], r["tier"]
-    targets = ["Model/C05Run.vo"] + props("C05")[2]
+    targets = ["Model/C05Run.vo", "Model/C05Run2.vo", "Model/C05Run3.vo"] + props("C05")[2]
     ok_mk, log = c.make(targets)
     thms = theorems_of(*props("C05")[0])
     assumptions = c.audit(props("C05")[1], thms) if ok_mk and thms else {}
